@@ -12,8 +12,8 @@ def f(n, grouping, desc=12, timeout=1500, file_uri=0):
 
 def harnesses(tier, findings):
     if tier == "probe":
-        a = f(1, 1); a.solver = "kissat"; a.name += "_kissat"; a.timeout = 1200
-        return [a]
+        a = f(1, 1); a.solver = "kissat"; a.name += "_kissat"; a.timeout = 900
+        return [a, f(1, 1, timeout=900)]
     if tier == "quick":
         return [f(1, 1), f(1, 1, file_uri=1)]
     return [f(1, 1), f(2, 1, timeout=3000), f(2, 2, timeout=3000), f(1, 1, desc=30, timeout=3000)]
